@@ -93,6 +93,7 @@ class Contract:
         out = self.outcomes(I, ctx, a, old)
         for name, fm in self.post(I, ctx, a, out, old):
             ctx.assume(fm)
+        ctx.ghost.setdefault("callee_outcomes", []).append((self.name, a, out))
         if out[0] == "raise":
             raise out[1]
         return out[1]
